@@ -34,6 +34,10 @@ func crashProbe(what string) {
 
 // pinned witnesses of defects that are not modelled: how = 0 the defect as
 // recorded, 1 the behaviour the property asks for, 2 anything else
+func (g *gen) regress(cls int, what string, how int, seen string) {
+	g.env.Add(fmt.Sprintf("CRegress %d %d", cls, how), fmt.Sprintf("regression %s -> %s", what, seen), "pinned", true)
+}
+
 func (g *gen) pin(cls int, what string, how int, seen string) {
 	g.env.Add(fmt.Sprintf("CPinned %d %d", cls, how), fmt.Sprintf("pinned %s -> %s", what, seen), "pinned", true)
 }
@@ -58,7 +62,8 @@ func (g *gen) pinnedWitnesses() {
 		}
 		g.pin(12, "f(5) with f func(*interface{})", how, describe(o))
 	}
-	// 13: delete of a non-index property of a bridged slice / array kills the process
+	// 13 (repaired in 1f2d1fa, kept as a regression case): delete of a non-index property of a bridged
+	// slice / array used to kill the process; still probed in a child first so that a relapse is reported, not suffered
 	for _, what := range []string{"slice", "array"} {
 		exe, err := os.Executable()
 		how, seen := 2, ""
@@ -79,13 +84,16 @@ func (g *gen) pinnedWitnesses() {
 			switch {
 			case err != nil && strings.Contains(s, "stack overflow"):
 				how, seen = 0, "child process died: fatal error: stack overflow (goSliceDelete/goArrayDelete call themselves through object.delete)"
-			case err == nil && strings.Contains(s, "survived"):
+			case err == nil && strings.Contains(s, "survived: true <nil>"):
 				how, seen = 1, strings.TrimSpace(s)
 			default:
 				seen = fmt.Sprintf("%v %.200s", err, s)
 			}
 		}
-		g.pin(13, "s.foo = 1; delete s.foo on a bridged "+what, how, seen)
+		if how != 1 {
+			deleteNonIndexCrashes = true
+		}
+		g.regress(13, "s.foo = 1; delete s.foo on a bridged "+what+" (must be true)", how, seen)
 	}
 	// 14: store through a nil map held in a struct field
 	{
@@ -201,6 +209,12 @@ func (g *gen) pinnedWitnesses() {
 // pinned histories: one per container finding, so that every run shows them
 func (g *gen) pinnedHists() {
 	lit := func(n int) jsval { return jsval{fmt.Sprint(n), fmt.Sprintf("(KI64, %d)", n)} }
+	// repaired 13: the delete in a history, with the property set, read, tested and deleted on both kinds of wrapper
+	if !deleteNonIndexCrashes {
+		x := []sopT{{kind: 14, gv: 7}, {kind: 15}, {kind: 7}, {kind: 16}, {kind: 15}, {kind: 17}, {kind: 7}, {kind: 16}}
+		g.runSliceHist(false, []int{1, 2}, []int64{1, 2}, 2, x, "slice")
+		g.runSliceHist(true, []int{1, 2}, []int64{1, 2}, 2, x, "slice")
+	}
 	// class 6: pop on a slice handed over by value
 	g.runSliceHist(false, []int{1, 2, 3}, []int64{1, 2, 3}, 3, []sopT{{kind: 6}}, "slice")
 	// class 7: push through a struct field
